@@ -75,11 +75,10 @@ theorem every_id_the_planner_adds_is_at_a_join_point {env : Pl.Env} {fuel : Nat}
 
 /-- **a scrubber that cannot finish hands nothing back** (`Mw.execute`, the model of the tail of `Gateway.Execute`,
     tied by the regenerated facts `mw.errorAborts` / `mw.returnsResultAndExecErr`): when the scrubber trips over a
-    place it cannot walk to — half of the listed places cleaned, half not — the data is dropped and only the error
-    is returned, whatever the executor had reported -/
+    place it cannot walk to — half of the listed places cleaned, half not — the data is dropped; the errors returned are those the executor had reported followed by the scrubber's -/
 theorem a_scrubber_that_fails_hands_back_no_data {D E : Type} (scrub : Mw.RMw D E) (user : List (Mw.RMw D E))
-    (result : D) (ee : Option E) (e : E) (h : scrub.run result = .error e) :
-    Mw.execute scrub user result ee = ([scrub.id], none, some e) := Mw.execute_scrubber_fails scrub user result ee e h
+    (result : D) (ee : List E) (e : E) (h : scrub.run result = .error e) :
+    Mw.execute scrub user result ee = ([scrub.id], none, ee ++ [e]) := Mw.execute_scrubber_fails scrub user result ee e h
 
 /-- **planner and scrub table together**: take a plan of the planner model and the scrub table computed over a plan
     tree that holds the planner's steps (every insertion point of a step of the plan is the insertion point of a
